@@ -64,10 +64,24 @@ def roundtrip(scfg, tags=None):
         d = scfg.to_dict()
     except Exception as e:  # noqa: BLE001
         return None, ["to_dict:" + exc_sig(e)], [], []
+    import copy
+    d_before = copy.deepcopy(d)
     try:
         s2, _ = SCFG.from_dict(d)
     except Exception as e:  # noqa: BLE001
         return None, ["from_dict:" + exc_sig(e)], [], []
+    # writing twice gives the same dictionary; reading does not alter the dictionary it is given,
+    # and reading the same dictionary twice gives the same graph
+    try:
+        if scfg.to_dict() != d_before:
+            fails.append("second-to_dict-of-the-same-graph-differs")
+        if d != d_before:
+            fails.append("from_dict-altered-its-argument")
+        s2b, _ = SCFG.from_dict(copy.deepcopy(d_before))
+        if export.export(s2b, tags)[1].replace(s2b.region.name, "T") != export.export(s2, tags)[1].replace(s2.region.name, "T"):
+            fails.append("second-from_dict-of-the-same-dictionary-differs")
+    except Exception as e:  # noqa: BLE001
+        fails.append("repeated-write-read:" + exc_sig(e))
     t1, l1 = export.export(scfg, tags)
     try:
         t2, l2 = export.export(s2, tags)
